@@ -325,6 +325,12 @@ func c03Watchdog() {
 }
 
 func (x *c03Ctx) cur(site string) {
+	if x.c.Fam == "bytes" {
+		if x.cjson != "" {
+			return // one record per case is enough for the tiny exhaustive strings
+		}
+		site = "DeBlobProgramCode/Psi_M"
+	}
 	if x.cjson == "" {
 		x.cjson = fmt.Sprintf(`,"case":{"fam":%q,"hex":%q,"kind":%q,"seed":%q,"pos":%d,"val":%d,"cut":%d,"level":%d,"size":%d}}`,
 			x.c.Fam, x.c.Hex, x.c.Kind, x.c.Seed, x.c.Pos, x.c.Val, x.c.Cut, x.c.Level, x.c.Size)
@@ -900,12 +906,16 @@ func TestVerif_C03(t *testing.T) {
 		}
 		vals := c03Nine
 		if th {
-			vals = []int{-1, 0x00, 0xFF} // every position: flip the low bit, all-zero, all-one
-			if isStruct[pos] {
+			switch {
+			case pos < 27 || (pos >= cAt-8 && pos < cAt+10): // the two headers: all 256 values
 				vals = nil
 				for v := 0; v < 256; v++ {
 					vals = append(vals, v)
 				}
+			case isStruct[pos]:
+				vals = c03Nine
+			default:
+				vals = []int{-1} // every other position: flip the low bit
 			}
 		}
 		for _, v := range vals {
